@@ -129,6 +129,54 @@ def gen_cases(rng, tier):
             xs = sorted(rng.uniform(0.05, 0.95) * w for _ in range(4))
             ops = [0, f2b(xs[0]), f2b(-a), 3, f2b(xs[1]), f2b(-b), f2b(xs[2]), f2b(b), f2b(xs[3]), f2b(a), 1, f2b(xs[3]), f2b(h * 0.8), 1, f2b(xs[0]), f2b(h * 0.8), 4]
         cases.append(("fill_px", [i % 2, 0, rng.choice([0, 0, 1]), w, h, 0, w, 750, 0] + list(IDENT) + ops))
+    # curves that START or END exactly on a border of the clip and bulge into the pixmap, the contour closed outside the pixmap
+    # (so the edge clipper is used): touching a border is not crossing it
+    for i in range(64 if tier == "quick" else 800):
+        w, h = rng.choice([(24, 24), (40, 30), (100, 100)])
+        side = i % 4
+        cub = (i // 4) % 2
+        t0, t1 = sorted([rng.uniform(0.1, 0.45), rng.uniform(0.55, 0.9)])
+        depth = rng.uniform(0.3, 0.8)
+        out = rng.choice([3.0, 10.0, 40.0])
+        if side in (0, 1):      # left / right border: end points (bx, t0 h) and (bx, t1 h)
+            bx = 0.0 if side == 0 else float(w)
+            inx = bx + (depth * w if side == 0 else -depth * w)
+            ox = bx + (-out if side == 0 else out)
+            a, b = (bx, round(t0 * h, 2)), (bx, round(t1 * h, 2))
+            if rng.random() < 0.4:   # only one end on the border, the other inside
+                b = (bx + (inx - bx) * rng.uniform(0.3, 1.0), b[1])
+            c1, c2 = (inx, a[1] + (b[1] - a[1]) * rng.uniform(0.0, 0.5)), (inx, a[1] + (b[1] - a[1]) * rng.uniform(0.5, 1.0))
+            tail = [1, f2b(b[0]), f2b(h + out if b[0] != bx else b[1]), 1, f2b(ox), f2b(h + out if b[0] != bx else b[1]), 1, f2b(ox), f2b(a[1])]
+        else:                   # top / bottom border
+            by = 0.0 if side == 2 else float(h)
+            iny = by + (depth * h if side == 2 else -depth * h)
+            oy = by + (-out if side == 2 else out)
+            a, b = (round(t0 * w, 2), by), (round(t1 * w, 2), by)
+            if rng.random() < 0.4:
+                b = (b[0], by + (iny - by) * rng.uniform(0.3, 1.0))
+            c1, c2 = (a[0] + (b[0] - a[0]) * rng.uniform(0.0, 0.5), iny), (a[0] + (b[0] - a[0]) * rng.uniform(0.5, 1.0), iny)
+            tail = [1, f2b(w + out if b[1] != by else b[0]), f2b(b[1]), 1, f2b(w + out if b[1] != by else b[0]), f2b(oy), 1, f2b(a[0]), f2b(oy)]
+        if cub:
+            ops = [0, f2b(a[0]), f2b(a[1]), 3, f2b(c1[0]), f2b(c1[1]), f2b(c2[0]), f2b(c2[1]), f2b(b[0]), f2b(b[1])] + tail + [4]
+        else:
+            ops = [0, f2b(a[0]), f2b(a[1]), 2, f2b((c1[0] + c2[0]) / 2), f2b((c1[1] + c2[1]) / 2), f2b(b[0]), f2b(b[1])] + tail + [4]
+        cases.append(("fill_px", [i % 2, 0, rng.choice([0, 0, 1]), w, h, 0, w, 750, 0] + list(IDENT) + ops))
+    # cubics that are degree-elevated quadratics (computed in binary32, so the cubic coefficient of the derivative is rounding
+    # noise, not 0), asymmetric, with an interior y extremum: the extremum must still be found and the curve chopped there
+    for i in range(40 if tier == "quick" else 500):
+        w, h = rng.choice([(100, 100), (64, 64), (200, 120)])
+        x0, x2 = rng.uniform(0.05, 0.3) * w, rng.uniform(0.7, 0.95) * w
+        up = i % 2 == 0
+        y0, y2 = rng.uniform(0.5, 0.9) * h, rng.uniform(0.5, 0.9) * h
+        if not up:
+            y0, y2 = h - y0, h - y2
+        q1 = (rng.uniform(0.3, 0.7) * w + rng.uniform(-0.25, 0.25) * w, (0.05 if up else 0.95) * h + rng.uniform(-0.3, 0.0) * h * (1 if up else -1))
+        f32 = lambda v: b2f(f2b(v))
+        e = lambda a, b: f32(f32(a) + f32(f32(2.0 / 3.0) * f32(f32(b) - f32(a))))
+        c1 = (e(x0, q1[0]), e(y0, q1[1])); c2 = (e(x2, q1[0]), e(y2, q1[1]))
+        base = (0.98 if up else 0.02) * h
+        ops = [0, f2b(x0), f2b(y0), 3, f2b(c1[0]), f2b(c1[1]), f2b(c2[0]), f2b(c2[1]), f2b(x2), f2b(y2), 1, f2b(x2), f2b(base), 1, f2b(x0), f2b(base), 4]
+        cases.append(("fill_px", [i % 2, 0, rng.choice([0, 0, 1]), w, h, 0, w, 750, 0] + list(IDENT) + ops))
     # large cubics with lopsided control polygons (the flattening count must follow the larger deviation)
     for i in range(48 if tier == "quick" else 600):
         w, h = rng.choice([(200, 120), (160, 160), (120, 200)])
